@@ -506,7 +506,7 @@ where
         let ks = ks_stat(&mut pool, phi);
         rep.max("proposal_noise_max_abs_z", z_mean.abs().max(z_var.abs()));
         rep.max("proposal_noise_max_ks", ks);
-        if z_mean.abs() > 6.5 || z_var.abs() > 6.5 || ks > 2.6 {
+        if z_mean.abs() > 6.5 || z_var.abs() > 6.5 || ks > 3.6 {
             rep.violation(&format!("{sig} sample-noise-is-not-N(0,std^2)"), mon, case, json!({"std": std, "z_mean": z_mean, "z_var": z_var, "ks": ks}));
             return;
         }
